@@ -35,3 +35,22 @@ theorem C10_gen_timeout_update (e : Env) (d fin : Int) (cs : Status) :
 
 theorem C10_gen_timeout_initialise (e : Env) (d fin : Int) :
     decInit e (.timeout d fin) = .timeout d (Gen.Timeout_initialise d e.now) := rfl
+
+/-! ### OneShot: `update()` and `terminate()` (the latch) and the two policies of `common.OneShotPolicy` -/
+
+theorem C10_gen_oneshot_update (e : Env) (both : Bool) (final : Option Status) (cs : Status) :
+    decUpdate e (.oneShot both final) cs = (.oneShot both final, Gen.OneShot_update final cs, false) := by
+  cases final <;> rfl
+
+/-- the model's `both` flag stands for the policy ON_COMPLETION, its absence for ON_SUCCESSFUL_COMPLETION -/
+theorem C10_gen_oneshot_terminate (both : Bool) (final : Option Status) (s : Status) :
+    decTerminate s (.oneShot both final) =
+      .oneShot both (Gen.OneShot_terminate final
+        (if both then Gen.OneShotPolicy_ON_COMPLETION else Gen.OneShotPolicy_ON_SUCCESSFUL_COMPLETION) s) := by
+  cases final <;> cases both <;> cases s <;>
+    simp [decTerminate, Gen.OneShot_terminate, Gen.OneShotPolicy_ON_COMPLETION,
+      Gen.OneShotPolicy_ON_SUCCESSFUL_COMPLETION]
+
+/-- `EternalGuard.update()` (reached only while the condition holds): the child's status -/
+theorem C10_gen_guard_update (e : Env) (g : Nat) (cs : Status) :
+    decUpdate e (.guard g) cs = (.guard g, Gen.EternalGuard_update cs, false) := rfl
